@@ -24,7 +24,7 @@ PROP = "C07"
 def generate(rng, tier):
     groups, maxops = (150, 14) if tier == "quick" else (4000, 30)
     for _ in range(groups):
-        for c in lc.gen_group(rng, maxops, uni_weight=1.0, incoherent_rate=0.12):
+        for c in lc.gen_group(rng, maxops, uni_weight=1.0, incoherent_rate=0.3):
             yield c
 
 
